@@ -281,8 +281,9 @@ impl TerminalRenderer {
             }
         }
 
+        // NOTE: the front buffer is left alone, `Terminal::run_render` calls `clear`
+        //       after the handler has already drawn the next frame into it.
         self.marks.fill(CellMark::Damaged);
-        self.front.fill(Cell::default());
         self.back.fill(Cell::default());
 
         Ok(())
